@@ -141,6 +141,41 @@ def same(obs, pred):
     return obs == pred and type(obs) == type(pred)
 
 
+def match(d, obs, pred, alt):
+    """obs against a prediction `pred` of TLC for definition d. `alt` (or None) is the same prediction with the
+    two sign deviations on (SLongU: `l` read unsigned; SLebU: signed LEB128 read unsigned); a member whose
+    type is concerned may agree with either reading.  -> None (no match) or the set of sign deviations needed."""
+    if not isinstance(obs, list) or len(obs) != len(pred):
+        return None
+    need = set()
+    for i, f in enumerate(d["fs"]):
+        o, p, a = obs[i], pred[i], (alt[i] if alt is not None else None)
+        if f["k"] == "nest":
+            if f["n"] == 0:
+                r = match(f["d"], o, p, a)
+            else:
+                if not isinstance(o, list) or len(o) != len(p):
+                    return None
+                r = set()
+                for j in range(len(p)):
+                    rj = match(f["d"], o[j], p[j], a[j] if a is not None else None)
+                    if rj is None:
+                        return None
+                    r |= rj
+            if r is None:
+                return None
+            need |= r
+        elif same(o, p):
+            continue
+        elif a is not None and same(o, a) and f["k"] == "raw" and f["t"] == "l":
+            need.add("SLongU")
+        elif a is not None and same(o, a) and f["k"] == "leb":
+            need.add("SLebU")
+        else:
+            return None
+    return need
+
+
 def obs_offsets(offs):
     out = []
     for o, s in offs:
@@ -239,14 +274,19 @@ def replay_case(case):
         else:
             fails.append(("C16:unpack:raises:" + type(e).__name__, what))
     if obs is not None:
-        if same(obs, exp):
+        alt = expected(d, case["valsU"]) if case["signDevs"] else None
+        m = match(d, obs, exp, alt)
+        if m is not None and not m:
             values_ok = True
             tags.add("unpack-ok")
         else:
-            hit = None
-            for dv in case["valsDev"]:
-                if not dv.get("oob") and same(obs, expected(d, dv["vals"])):
-                    hit = dv["devs"]
+            hit = sorted(m) if m else None
+            for dv in ([] if hit else case["valsDev"]):
+                if dv.get("oob"):
+                    continue
+                m = match(d, obs, expected(d, dv["vals"]), expected(d, dv["valsU"]) if case["signDevs"] else None)
+                if m is not None:
+                    hit = dv["devs"] + sorted(m)
                     break
             what = "ps=%d: unpacked %s, expected %s" % (ps, str(obs)[:300], str(exp)[:300])
             if hit:
@@ -258,7 +298,7 @@ def replay_case(case):
                 fails.append(("C16:unpack:values", what))
     # --- pack (only meaningful on correctly unpacked values) ----------------------------------
     if values_ok:
-        want = list(case["bytes"])
+        want = list(case["data"][:case["nbytes"]])
         try:
             got = obj.pack(None, ps)
             got = list(got) if isinstance(got, (bytes, bytearray)) else ("not-bytes", type(got).__name__)
